@@ -414,7 +414,7 @@ def r37(ctx, fx, R):
     # bindings of the arm in source order; a use refers to the nearest binding of its name at or above its line (the dump names locals, it does not number them)
     binds = []          # [name, line, init expression, carries the modified value]
     for n in lib.hwalk(arm["body"]):
-        if n.get("k") == "let" and "init" in n:
+        if n.get("k") in ("let", "letx") and "init" in n:
             for q in lib.hwalk(n["pat"]):
                 if q.get("k") == "bind":
                     binds.append([q["name"], q.get("ln") or 0, n["init"], False])
